@@ -1739,8 +1739,23 @@ func (s *Service) runPipeline(rp *runnablePipeline) error {
 	// unconditionally, including on error, so the cleanup goroutine (already
 	// blocked on it) is never left hanging.
 	err := s.pipelines.UpdateStatus(ctx, rp.pipeline.ID, pipeline.StatusRunning, "")
+	if err != nil {
+		// The caller is told that the start failed, so the run must not stay
+		// live: the workers were already released above and would keep running
+		// with their connectors open, behind whatever status is stored (a user
+		// Start leaves a pipeline that "failed to start" but runs; a recovery
+		// restart leaves a live run behind the Degraded status the recovery arm
+		// writes for this error, which Stop then refuses to touch). Kill the
+		// run - fatal, a failed start must not be "recovered" by the cleanup
+		// goroutine - and wait until it has torn everything down and removed
+		// its entry. Mirrors pkg/lifecycle.
+		rp.t.Kill(cerrors.FatalError(cerrors.Errorf("could not record the running status: %w", err)))
+		close(startupDone)
+		_ = rp.t.Wait()
+		return err
+	}
 	close(startupDone)
-	return err
+	return nil
 }
 
 // deleteRunningPipelineIfCurrent removes id's entry from runningPipelines only
